@@ -836,6 +836,8 @@ structure Inv3 (s : CS) : Prop where
   conn : ∀ c, s.conn = some c → c < s.nextConn
   sends : ∀ p ∈ s.sendConn, p.2 < s.nextConn
   faulted : ∀ c ∈ s.faulted, c < s.nextConn
+  /-- the link of a successful attempt whose report is pending exists -/
+  okc : ∀ c, s.okConn = some c → c < s.nextConn
 
 theorem Inv3.linkOk {s : CS} (hi : Inv3 s) {sid c : Nat} (h : linkOk s sid c = true) : c < s.nextConn := by
   rcases linkOk_cases h with ⟨p, hp, rfl⟩ | hc
@@ -843,14 +845,19 @@ theorem Inv3.linkOk {s : CS} (hi : Inv3 s) {sid c : Nat} (h : linkOk s sid c = t
   · exact hi.conn c hc
 
 theorem Inv3.of_eq {s t : CS} (hi : Inv3 s) (h1 : t.nextConn = s.nextConn) (h2 : t.conn = s.conn)
-    (h3 : t.sendConn = s.sendConn) (h4 : t.faulted = s.faulted) : Inv3 t := by
-  refine ⟨?_, ?_, ?_⟩
+    (h3 : t.sendConn = s.sendConn) (h4 : t.faulted = s.faulted)
+    (h5 : t.okConn = s.okConn ∨ t.okConn = none) : Inv3 t := by
+  refine ⟨?_, ?_, ?_, ?_⟩
   · rw [h2, h1]; exact hi.conn
   · rw [h3, h1]; exact hi.sends
   · rw [h4, h1]; exact hi.faulted
+  · rw [h1]
+    rcases h5 with h5 | h5
+    · rw [h5]; exact hi.okc
+    · rw [h5]; intro c hc; cases hc
 
 theorem inv3_init : Inv3 init := by
-  refine ⟨?_, ?_, ?_⟩ <;> simp [init]
+  refine ⟨?_, ?_, ?_, ?_⟩ <;> simp [init]
 
 theorem Inv3.fault {s : CS} (hi : Inv3 s) {c : Nat} (hc : c < s.nextConn) :
     ∀ x ∈ c :: s.faulted, x < s.nextConn := by
@@ -865,15 +872,16 @@ theorem stepCore_inv3 {s t : CS} {e : Ev} (h : stepCore s e = some t) (hi : Inv3
     obtain ⟨hg, rfl⟩ := guard_eq_some.1 h
     simp only [Bool.and_eq_true, decide_eq_true_eq] at hg
     obtain ⟨-, rfl⟩ := hg
-    refine ⟨?_, ?_, ?_⟩
+    refine ⟨?_, ?_, ?_, ?_⟩
     · intro x hx; cases hx; exact Nat.lt_succ_self _
     · intro p hp; exact Nat.lt_succ_of_lt (hi.sends p hp)
     · intro x hx; exact Nat.lt_succ_of_lt (hi.faulted x hx)
+    · intro x hx; cases hx; exact Nat.lt_succ_self _
   | write c sid idx =>
     obtain ⟨hg, rfl⟩ := guard_eq_some.1 h
     simp only [Bool.and_eq_true] at hg
     have hl := hi.linkOk hg.1.1.2
-    refine ⟨hi.conn, ?_, hi.faulted⟩
+    refine ⟨hi.conn, ?_, hi.faulted, hi.okc⟩
     intro p hp
     dsimp only at hp ⊢
     split at hp
@@ -884,41 +892,48 @@ theorem stepCore_inv3 {s t : CS} {e : Ev} (h : stepCore s e = some t) (hi : Inv3
   | writeFail c sid =>
     obtain ⟨hg, rfl⟩ := guard_eq_some.1 h
     simp only [Bool.and_eq_true] at hg
-    exact ⟨hi.conn, hi.sends, hi.fault (hi.linkOk hg.2)⟩
+    exact ⟨hi.conn, hi.sends, hi.fault (hi.linkOk hg.2), hi.okc⟩
   | drainFail c =>
     simp only [stepCore] at h
     split at h
     · obtain ⟨hg, rfl⟩ := guard_eq_some.1 h
-      exact ⟨hi.conn, hi.sends, hi.fault (hi.linkOk hg)⟩
+      exact ⟨hi.conn, hi.sends, hi.fault (hi.linkOk hg), hi.okc⟩
     · cases h
   | envEof c =>
     simp only [stepCore, Option.some.injEq] at h
     subst h
     split
-    · next hc => exact ⟨hi.conn, hi.sends, hi.fault (hi.conn c hc)⟩
+    · next hc => exact ⟨hi.conn, hi.sends, hi.fault (hi.conn c hc), hi.okc⟩
     · exact hi
   | envReadErr c =>
     simp only [stepCore, Option.some.injEq] at h
     subst h
     split
-    · next hc => exact ⟨hi.conn, hi.sends, hi.fault (hi.conn c hc)⟩
+    · next hc => exact ⟨hi.conn, hi.sends, hi.fault (hi.conn c hc), hi.okc⟩
     · exact hi
   | abandon c =>
     obtain ⟨hg, rfl⟩ := guard_eq_some.1 h
     simp only [Bool.and_eq_true, decide_eq_true_eq] at hg
-    exact ⟨hi.conn, hi.sends, hi.fault (hi.conn c hg.1.1.1.2)⟩
+    exact ⟨hi.conn, hi.sends, hi.fault (hi.conn c hg.1.1.1.2), hi.okc⟩
+  | cfgFail c =>
+    -- the failed attempt's link is recorded as faulted: it is the link that attempt opened
+    obtain ⟨hg, rfl⟩ := guard_eq_some.1 h
+    simp only [Bool.and_eq_true, decide_eq_true_eq] at hg
+    refine ⟨hi.conn, hi.sends, hi.fault (hi.okc c hg.1.1), ?_⟩
+    intro x hx; cases hx
   | _ =>
     simp only [stepCore, guard_eq_some] at h
     repeat' split at h
     all_goals try rw [guard_eq_some] at h
     all_goals first
-      | (obtain ⟨-, rfl⟩ := h; exact hi.of_eq rfl rfl rfl rfl)
-      | (cases h; exact hi.of_eq rfl rfl rfl rfl)
+      | (obtain ⟨-, rfl⟩ := h; exact hi.of_eq rfl rfl rfl rfl (Or.inl rfl))
+      | (obtain ⟨-, rfl⟩ := h; exact hi.of_eq rfl rfl rfl rfl (Or.inr rfl))
+      | (cases h; exact hi.of_eq rfl rfl rfl rfl (Or.inl rfl))
       | cases h
 
 theorem step_inv3 {s s' : CS} {e : Ev} (h : step s e = some s') (hi : Inv3 s) : Inv3 s' := by
   obtain ⟨t, ht, rfl⟩ := step_eq_some.1 h
-  exact (stepCore_inv3 ht hi).of_eq rfl rfl rfl rfl
+  exact (stepCore_inv3 ht hi).of_eq rfl rfl rfl rfl (Or.inl rfl)
 
 theorem runTrace_inv3 (evs : List Ev) {s0 s : CS} (h : runTrace s0 evs = some s) (hi : Inv3 s0) :
     Inv3 s := by
